@@ -1,18 +1,58 @@
 //! verif-harness: generates cases, runs the implementation (rebuilt from /repo's working tree
 //! through path dependencies), and dumps `(case ...)` lines for the extracted-model driver.
+#![allow(dead_code, unused_imports, unused_variables, unused_mut)]
 mod dump;
 mod exprgen;
 mod rng;
 mod sexp;
+mod sysgen;
 mod util;
 
+mod c01;
+mod c02;
+mod c03;
+mod c04;
+mod c05;
 mod c06;
+mod c07;
+mod c08;
+mod c09;
+mod c10;
+mod c11;
+mod c12;
+mod c13;
+mod c14;
+mod c15;
+mod c16;
+mod c17;
+mod c18;
+mod c19;
+mod c20;
 
 fn main() {
     let args = util::Args::parse();
     util::silence_panics();
     match args.prop.as_str() {
+        "C01" => c01::run(&args),
+        "C02" => c02::run(&args),
+        "C03" => c03::run(&args),
+        "C04" => c04::run(&args),
+        "C05" => c05::run(&args),
         "C06" => c06::run(&args),
+        "C07" => c07::run(&args),
+        "C08" => c08::run(&args),
+        "C09" => c09::run(&args),
+        "C10" => c10::run(&args),
+        "C11" => c11::run(&args),
+        "C12" => c12::run(&args),
+        "C13" => c13::run(&args),
+        "C14" => c14::run(&args),
+        "C15" => c15::run(&args),
+        "C16" => c16::run(&args),
+        "C17" => c17::run(&args),
+        "C18" => c18::run(&args),
+        "C19" => c19::run(&args),
+        "C20" => c20::run(&args),
         other => {
             eprintln!("unknown property {other}");
             std::process::exit(2);
